@@ -183,8 +183,8 @@ def session_over_socket(mode, seed):
     """A full device session over loopback; returns list of outcome keys."""
     import threading
     m = env.mods()
-    m['sync'].time = time
-    m['asyn'].time = time
+    env.bind_time(time, m['sync'])
+    env.bind_time(time, m['asyn'])
     m['sync'].Lock = threading.Lock
     m['asyn'].Lock = asyncio.Lock
     dev = simdev.SimDevice(seed=seed, auth=simdev.AuthPolicy(maxdata=65536))
